@@ -172,7 +172,7 @@ func factsC19() {
 			}
 		}
 		okPro, turnstile := sendPrologue(send)
-		boolFact(g, "txWaitBeforeWrite", okPro && iWait >= 0 && nWait == 1 && evs[iWait].depth == 0 && writes >= 1 && allAfter,
+		boolFact(g, "txWaitBeforeWrite", okPro && iWait >= 0 && nWait == 1 && evs[iWait].depth <= 1 && writes >= 1 && allAfter,
 			"send: begins with the single unconditional sb.valve.txWait(...), bare or inside the one-at-a-time turnstile; every conn.Write comes after it")
 		boolFact(g, "txWaitOneAtATime", okPro && turnstile,
 			"send: sb.txTurn <- struct{}{}; if broken { <-sb.txTurn; return }; sb.valve.txWait(len(data)); <-sb.txTurn - a channel of capacity 1 made in makeSwitchboard, touched nowhere else in send")
